@@ -138,3 +138,13 @@ Proof. exact pin_parblock_queue_file_blocks. Qed.
 Print Assumptions C19_src_pin_parblock_queue_file_blocks.
 Print Assumptions C19_src_fiemap_request_covers_the_file.
 Print Assumptions C19_src_fiemap_request_from_zero.
+
+(* ---- further functions on this property's path, pinned token for token as validated (dependency review after rounds 5 and 6:
+   each missed change had edited a pinned function that this property did not cite) ---- *)
+From XcpPins Require Import Pin_linux_copy_file_offset Pin_linux_try_copy_file_range.
+Theorem C19_src_pin_linux_copy_file_offset : pin_unchanged name_linux_copy_file_offset.
+Proof. exact pin_linux_copy_file_offset. Qed.
+Theorem C19_src_pin_linux_try_copy_file_range : pin_unchanged name_linux_try_copy_file_range.
+Proof. exact pin_linux_try_copy_file_range. Qed.
+Print Assumptions C19_src_pin_linux_copy_file_offset.
+Print Assumptions C19_src_pin_linux_try_copy_file_range.
